@@ -4,10 +4,16 @@
 // Line protocol (all names hex encoded, "-" = empty string, lists comma separated, "_" = empty list):
 //
 //	sb <comp> <rootRel> <variant> <cwdRel>   first line of every case: component (fst|ds|upd|lib), position of the root
-//	                                         inside the sandbox, variant (plain|slash|noexist), working directory
-//	put|get|del|qry <key>                    fstree Put / Get / Delete / Query(prefix)
+//	                                         inside the sandbox, variant (plain|slash|noexist; upd also nested:
+//	                                         the storage dir is a child node of a DirStructure rooted at its parent), working directory
+//	put|get|gmt|del|qry <key>                fstree Put / Get / GetMeta / Delete / Query(prefix)
+//	fss <state>                              fstree: what stands at the root's place from now on, behind the back of the open database
+//	                                         (plain|rmroot|rootfile|rmd|dfile|extra|bad|empty)
 //	ens <r|c|g> <path> | enr <r|c|g> <rel> | end <r|c|g> <names>   DirStructure.EnsureAbsPath / EnsureRelPath / EnsureRelDir
 //	                                         called on the root structure, its child or its grandchild
+//	chd <h> <name> <perm> | hens <h> | hena <h> <path> | henr <h> <rel> | hend <h> <names>
+//	                                         comp dsh (one DirStructure tree per case, calls accumulate): ChildDir / Ensure /
+//	                                         EnsureAbsPath / EnsureRelPath / EnsureRelDir on node <h> (0 = root, children in order of registration)
 //	unz <names>                              UnpackResources on a zip archive with these entry names ("x/" = directory entry)
 //	scan <root>                              ResourceRegistry.ScanStorage(root)
 //	clean|dir|base <p>, join|rel <a> <b>     the stdlib functions the model re-implements
@@ -118,9 +124,18 @@ type exec struct {
 
 	fst            storage.Interface
 	ds, dsC, dsG   *utils.DirStructure
+	fsState        string                // comp fst: what stands at the root's place while the database is open (fss line)
+	handles        []*utils.DirStructure // comp dsh: node 0 = NewDirStructure(root), then every child in order of registration
+	chdLog         []dshCall             // comp dsh: the ChildDir calls of this case (replayed when the sandbox is rebuilt)
 	rootGiven      string
 	nonce          int
 	outsideDirtied bool
+}
+
+type dshCall struct {
+	h    int
+	name string
+	perm os.FileMode
 }
 
 func newExec(r *hxlib.Run) hxlib.Exec {
@@ -222,7 +237,7 @@ func (e *exec) build() {
 	e.caseDir = filepath.Join(scratchBase, fmt.Sprintf("c%d", caseNo.Add(1)))
 	// the sandbox top sits 8 levels below the case directory: generated climbs (at most depth+3 parent
 	// references, 6 in mixed names) stay inside the case directory even if a broken component follows them
-	top := filepath.Join(e.caseDir, "p1/p2/p3/p4/p5/p6/p7/p8/sb")
+	top := e.caseDir + SB
 	must(os.MkdirAll(top, 0o755))
 	var decoy func(dir string)
 	switch e.comp {
@@ -247,6 +262,13 @@ func (e *exec) build() {
 		must(os.MkdirAll(e.sb.root, 0o755))
 	}
 	e.restoreInside()
+	if e.comp == "dsh" {
+		// a fresh tree on the (new) root path; the ChildDir calls made so far are repeated
+		e.handles = []*utils.DirStructure{utils.NewDirStructure(e.rootGiven, 0o755)}
+		for _, c := range e.chdLog {
+			e.dshChild(c)
+		}
+	}
 	cwd := filepath.Join(top, e.cwdRel)
 	if e.variant == "noexist" && e.sb.underRoot(cwd) {
 		cwd = top // the root must not exist: the working directory cannot be inside it
@@ -276,6 +298,7 @@ func (e *exec) restoreInside() {
 			_, err := db.Put(fstRecord(k, "IN:"+k))
 			must(err)
 		}
+		e.applyFsState()
 	case "ds":
 		if e.variant == "noexist" {
 			_ = os.RemoveAll(root)
@@ -286,6 +309,13 @@ func (e *exec) restoreInside() {
 		e.ds = utils.NewDirStructure(e.rootGiven, 0o755)
 		e.dsC = e.ds.ChildDir("tmp", 0o700)
 		e.dsG = e.dsC.ChildDir("sub", 0o750)
+	case "dsh":
+		// the tree of DirStructure nodes lives as long as the case; only the directory content is reset
+		_ = os.RemoveAll(root)
+		if e.variant != "noexist" {
+			must(os.Mkdir(root, 0o755))
+			must(os.Chmod(root, 0o755))
+		}
 	case "upd":
 		if st, err := os.Stat(root); err != nil || !st.IsDir() {
 			_ = os.RemoveAll(root)
@@ -296,7 +326,52 @@ func (e *exec) restoreInside() {
 			must(os.WriteFile(filepath.Join(root, f), []byte("IN:"+f), 0o644))
 		}
 		must(os.MkdirAll(filepath.Join(root, "tmp"), 0o700))
-		e.ds = utils.NewDirStructure(e.rootGiven, 0o755)
+		if e.variant == "nested" {
+			// the storage dir is a child of a bigger structure (dataroot.ChildDir("updates", perm)), as applications set it up
+			e.ds = utils.NewDirStructure(filepath.Dir(root), 0o755).ChildDir(filepath.Base(root), 0o755)
+		} else {
+			e.ds = utils.NewDirStructure(e.rootGiven, 0o755)
+		}
+	}
+}
+
+var fsStates = map[string]bool{"plain": true, "rmroot": true, "rootfile": true, "rmd": true, "dfile": true, "extra": true, "bad": true, "empty": true}
+
+// applyFsState changes what is below (or at) the root behind the back of the open database.
+func (e *exec) applyFsState() {
+	root := e.sb.root
+	recBytes := func(key string) []byte { // a well-formed record file, as Put writes it
+		b, err := os.ReadFile(filepath.Join(root, "a"))
+		must(err)
+		return bytes.Replace(b, []byte("IN:a"), []byte("IN:"+key), 1)
+	}
+	switch e.fsState {
+	case "plain":
+	case "rmroot": // the database directory was removed
+		must(os.RemoveAll(root))
+	case "rootfile": // ... and replaced by a (well-formed record) file
+		b := recBytes(".")
+		must(os.RemoveAll(root))
+		must(os.WriteFile(root, b, 0o644))
+	case "rmd": // an intermediate directory is missing
+		must(os.RemoveAll(filepath.Join(root, "d")))
+	case "dfile": // an intermediate directory was replaced by a file
+		b := recBytes("d")
+		must(os.RemoveAll(filepath.Join(root, "d")))
+		must(os.WriteFile(filepath.Join(root, "d"), b, 0o644))
+	case "extra": // entries inside the root whose names extend the name of a directory
+		for _, k := range []string{"da", "dx/f"} {
+			_, err := e.fst.Put(fstRecord(k, "IN:"+k))
+			must(err)
+		}
+	case "bad": // a file that is not a record
+		must(os.WriteFile(filepath.Join(root, "c0"), []byte("not a record"), 0o644))
+	case "empty":
+		ents, err := os.ReadDir(root)
+		must(err)
+		for _, en := range ents {
+			must(os.RemoveAll(filepath.Join(root, en.Name())))
+		}
 	}
 }
 
@@ -327,16 +402,22 @@ func (e *exec) Do(line string) string {
 			return "bad-op"
 		}
 		switch f[1] {
-		case "fst", "ds", "upd", "lib":
+		case "fst", "ds", "dsh", "upd", "lib":
 		default:
 			return "bad-op"
 		}
 		switch f[3] {
 		case "plain", "slash", "noexist":
+		case "nested":
+			if f[1] != "upd" {
+				return "bad-op"
+			}
 		default:
 			return "bad-op"
 		}
 		e.comp, e.rootRel, e.variant, e.cwdRel = f[1], rr, f[3], cw
+		e.chdLog = nil
+		e.fsState = "plain"
 		if e.comp != "lib" {
 			e.build()
 		}
@@ -347,6 +428,14 @@ func (e *exec) Do(line string) string {
 	}
 	if e.comp == "lib" {
 		return e.doLib(f)
+	}
+	if e.comp == "fst" && f[0] == "fss" {
+		if len(f) != 2 || !fsStates[f[1]] {
+			return "bad-op"
+		}
+		e.fsState = f[1]
+		e.restoreInside()
+		return "ok"
 	}
 	// the harness's own inspection of the sandbox (listing, searching the written marker) happens in
 	// prepare / finish, outside the observed window: only the component call itself is observed.
@@ -436,7 +525,7 @@ type finishFn func() (decision string, restoreInside bool)
 func (e *exec) prepare(f []string) (call func(), finish finishFn) {
 	s := e.sb
 	switch {
-	case e.comp == "fst" && len(f) == 2 && (f[0] == "put" || f[0] == "get" || f[0] == "del" || f[0] == "qry"):
+	case e.comp == "fst" && len(f) == 2 && (f[0] == "put" || f[0] == "get" || f[0] == "gmt" || f[0] == "del" || f[0] == "qry"):
 		key, ok := unhx(f[1])
 		if !ok {
 			return nil, nil
@@ -496,6 +585,8 @@ func (e *exec) prepare(f []string) (call func(), finish finishFn) {
 			sort.Strings(created)
 			return "acc dirs " + hxList(created), true
 		}
+	case e.comp == "dsh":
+		return e.prepDsh(f)
 	case e.comp == "upd" && len(f) == 2 && f[0] == "scan":
 		root, ok := unhx(f[1])
 		if !ok {
@@ -538,6 +629,8 @@ func (e *exec) prepFst(op, key string) (func(), finishFn) {
 			return "rej tooshort"
 		case strings.Contains(err.Error(), "key integrity check failed"):
 			return "rej integrity"
+		case strings.Contains(err.Error(), "key is not a clean path"):
+			return "rej unclean" // (repo commit 6c2daee of branch verif-db2, if integrated)
 		}
 		return "acc oserr"
 	}
@@ -586,6 +679,26 @@ func (e *exec) prepFst(op, key string) (func(), finishFn) {
 			}
 			return "acc data " + hx("?"+d), false
 		}
+	case "gmt":
+		var m *record.Meta
+		mg, ok := e.fst.(interface {
+			GetMeta(key string) (*record.Meta, error)
+		})
+		if !ok {
+			return nil, nil
+		}
+		return func() { m, err = mg.GetMeta(key) }, func() (string, bool) {
+			if err != nil {
+				if err == storage.ErrNotFound {
+					return "acc notfound", false
+				}
+				return classify(err), false
+			}
+			if m == nil {
+				return "acc oserr", false
+			}
+			return "acc meta", false
+		}
 	case "del":
 		before := e.listAll()
 		return func() { err = e.fst.Delete(key) }, func() (string, bool) {
@@ -608,7 +721,7 @@ func (e *exec) prepFst(op, key string) (func(), finishFn) {
 		if qerr != nil {
 			return func() {}, func() (string, bool) { return "acc oserr", false }
 		}
-		var keys []string
+		var keys, decoys []string
 		var iterErr error
 		return func() {
 				var it interface {
@@ -622,25 +735,151 @@ func (e *exec) prepFst(op, key string) (func(), finishFn) {
 				it = iter
 				for r := range iter.Next {
 					keys = append(keys, r.DatabaseKey())
+					// a record whose content is a decoy's content was read from outside, whatever its key says
+					if w, ok := r.(*record.Wrapper); ok && strings.HasPrefix(string(w.Data), "OUTSIDE:") {
+						decoys = append(decoys, string(w.Data)[8:])
+					}
 				}
 				iterErr = it.Err()
 			}, func() (string, bool) {
 				if err != nil {
 					return classify(err), false
 				}
-				// The walk's error is stored by iterator.Finish *after* it closed Next (DESIGN §7 #17, a C02 matter),
-				// so a consumer cannot read it reliably. A failed walk (missing walk root) delivers no keys, and that is
-				// what is compared; only the synchronous error of Query itself is "acc oserr".
-				_ = iterErr
+				// iterator.Finish stores the walk's error before it closes Next (C02's fix), so it can be read here:
+				// "walkerr" = the walk ended with an error (a file that is not a record, a walk root behind a file).
 				out := make([]string, len(keys))
 				for i, k := range keys {
 					out[i] = s.virt(filepath.Join(s.root, k))
 				}
 				sort.Strings(out)
-				return "acc keys " + hxList(out), false
+				out = append(out, decoys...)
+				d := "acc keys " + hxList(out)
+				if iterErr != nil {
+					d += " walkerr"
+				}
+				return d, false
 			}
 	}
 	return nil, nil
+}
+
+// dshChild makes one ChildDir call and returns the handle of the child.
+func (e *exec) dshChild(c dshCall) int {
+	child := e.handles[c.h].ChildDir(c.name, c.perm)
+	for i, h := range e.handles {
+		if h == child {
+			return i
+		}
+	}
+	e.handles = append(e.handles, child)
+	return len(e.handles) - 1
+}
+
+func parsePerm(s string) (os.FileMode, bool) {
+	if s == "" || len(s) > 4 {
+		return 0, false
+	}
+	v := 0
+	for _, c := range s {
+		if c < '0' || c > '7' {
+			return 0, false
+		}
+		v = v*8 + int(c-'0')
+	}
+	return os.FileMode(v), true
+}
+
+// prepDsh: calls on the DirStructure tree of the case.
+func (e *exec) prepDsh(f []string) (func(), finishFn) {
+	s := e.sb
+	if len(f) < 2 {
+		return nil, nil
+	}
+	h := 0
+	for _, c := range f[1] {
+		if c < '0' || c > '9' || len(f[1]) > 6 {
+			return nil, nil
+		}
+		h = h*10 + int(c-'0')
+	}
+	if h >= len(e.handles) {
+		return nil, nil
+	}
+	node := e.handles[h]
+	if f[0] == "chd" {
+		if len(f) != 4 {
+			return nil, nil
+		}
+		name, ok := unhx(f[2])
+		perm, ok2 := parsePerm(f[3])
+		if !ok || !ok2 {
+			return nil, nil
+		}
+		c := dshCall{h, name, perm}
+		idx := -1
+		return func() { idx = e.dshChild(c) }, func() (string, bool) {
+			e.chdLog = append(e.chdLog, c)
+			return fmt.Sprintf("child %d %s", idx, hx(s.virt(e.handles[idx].Path))), false
+		}
+	}
+	var err error
+	var call func()
+	switch {
+	case f[0] == "hens" && len(f) == 2:
+		call = func() { err = node.Ensure() }
+	case f[0] == "hena" && len(f) == 3:
+		p, ok := unhx(f[2])
+		if !ok {
+			return nil, nil
+		}
+		call = func() { err = node.EnsureAbsPath(s.real(p)) }
+	case f[0] == "henr" && len(f) == 3:
+		p, ok := unhx(f[2])
+		if !ok {
+			return nil, nil
+		}
+		call = func() { err = node.EnsureRelPath(p) }
+	case f[0] == "hend" && len(f) == 3:
+		xs, ok := unhxList(f[2])
+		if !ok {
+			return nil, nil
+		}
+		call = func() { err = node.EnsureRelDir(xs...) }
+	default:
+		return nil, nil
+	}
+	before := e.listAll()
+	return call, func() (string, bool) {
+		if err != nil {
+			switch {
+			case strings.Contains(err.Error(), "is outside of DirStructure scope"):
+				return "rej outside", false
+			case strings.Contains(err.Error(), "failed to get relative path"):
+				return "rej rel", false
+			}
+			return "acc oserr", true
+		}
+		var created []string
+		for p, isDir := range e.listAll() {
+			if _, was := before[p]; !was && isDir {
+				mode := "?"
+				if st, err := os.Lstat(p); err == nil {
+					mode = fmt.Sprintf("%o", st.Mode().Perm())
+				}
+				created = append(created, hx(s.virt(p))+":"+mode)
+			}
+		}
+		sort.Slice(created, func(i, j int) bool {
+			a, _ := unhx(strings.SplitN(created[i], ":", 2)[0])
+			b, _ := unhx(strings.SplitN(created[j], ":", 2)[0])
+			return a < b
+		})
+		out := "_"
+		if len(created) > 0 {
+			out = strings.Join(created, ",")
+		}
+		return "acc dirsm " + out, true
+	}
 }
 
 const (
@@ -722,7 +961,7 @@ func main() {
 		Monitor:  monitor,
 		Extra: func(r *hxlib.Run) map[string]any {
 			cleanupScratch()
-			return map[string]any{"fs_oracle": "snapshot(names,types,modes,sizes,sha1) + inotify(open,read,write,attrib,create,delete,move) on every directory outside the root"}
+			return map[string]any{"fs_oracle": "snapshot(names,types,modes,sizes,sha1) + inotify(open,read of files and of directory listings,write,attrib,create,delete,move) on every directory outside the root (parent and ancestors, siblings with decoys)"}
 		},
 	})
 }
